@@ -176,14 +176,31 @@ def play(ctx, name, hist, res, cmds, exp, tags):
             changing += 1 if feats else 0
         elif step[0] == "delete":
             ref.delete(step[1])
-            db.delete(step[1], make_backup=False)
+            # the accepted argument forms (ids, Feature objects, a bare id, a bare Feature), chosen from the step itself
+            form = sum(len(x) for x in step[1]) % 4
+            victims = list(step[1])
+            if form in (1, 3):
+                objs = []
+                for x in victims:
+                    try:
+                        objs.append(db[x])
+                    except gffutils.FeatureNotFoundError:
+                        objs.append(x)
+                victims = objs
+            if form >= 2 and len(victims) == 1:
+                victims = victims[0]
+            db.delete(victims, make_backup=False)
             cmds.append("delete " + dbside.enc_list(step[1])); exp.append("ok"); tags.append(("delete", repr(inp)))
             changing += 1
         elif step[0] == "addrel":
             _, p, c, l = step
             want = ref.add_relation(p, c, l)
             try:
-                db.add_relation(p, c, l)
+                if (len(p) + len(c)) % 3 == 0:
+                    # with callbacks that hand the features back unchanged: both rows are rewritten with the same content
+                    db.add_relation(p, c, l, parent_func=lambda pa, ch: pa, child_func=lambda pa, ch: ch)
+                else:
+                    db.add_relation(p, c, l)
                 got = "ok"
             except gffutils.FeatureNotFoundError:
                 got = "err FeatureNotFoundError"
